@@ -23,9 +23,9 @@ CONFIG = {
     "C05": dict(algos=None, families=None, n=(250, 4000), perms=True, topo_sweep=True, overfull_sweep=True, inject=5, degree_sweep=True),
     "C06": dict(algos=None, families=None, n=(250, 4000), topo_sweep=True, overfull_sweep=True, inject=4, degree_sweep=True, size_sweep=True),
     "C07": dict(algos=None, families=None, n=(250, 4000), perms=True, derived_sweep=True, inject=2, degree_sweep=True, tableless_sweep=True),
-    "C08": dict(algos=None, families=None, n=(250, 4000), inject=2, degree_sweep=True),
+    "C08": dict(algos=None, families=None, n=(250, 4000), inject=2, degree_sweep=True, size_sweep=True),
     "C09": dict(algos=["ID", "SRC"], families=["mesh", "tree"], n=(150, 1500), mesh_sweep=True),
-    "C11": dict(algos=None, families=None, n=(150, 2000), inject=3),
+    "C11": dict(algos=None, families=None, n=(150, 2000), inject=3, derived_sweep=True),
     "C12": dict(algos=None, families=None, n=(200, 2000), size_sweep=True, derived_sweep=True, inject=3, topo_sweep=True, degree_sweep=True, tableless_sweep=True),
     "C13": dict(algos=None, families=None, n=(250, 4000), derived_sweep=True, inject=2, degree_sweep=True),
     "C14": dict(algos=["ID", "SRC"], families=["star", "mesh", "meshx", "tree", "custom"], n=(200, 3000), chain_sweep=True, topo_sweep=True, degree_sweep=True),
@@ -106,14 +106,18 @@ def sweep_cases(pid, tier, rng):
                     out.append((f"tree-sweep:{algo}:{t}", cfg))
     if conf.get("derived_sweep"):
         # fields of `routing` that floogen derives itself, spelled out (too small and too large) in the description
-        keys = ["num_endpoints", "num_id_bits", "num_x_bits", "num_y_bits", "num_route_bits", "addr_offset_bits"]
+        keys = ["num_endpoints", "num_id_bits", "num_x_bits", "num_y_bits", "num_route_bits", "addr_offset_bits", "port_id_bits"]
         for algo in conf["algos"] or ["XY", "ID", "SRC"]:
             for k in keys:
-                for v in ([1, 3, 9, 17] if big else [1, 9]):
-                    if algo == "XY":
-                        cfg = gen_desc.gen_mesh(rng, algo, "axi", m=2, n=2, sides=["West"], partial_local=False)
-                    else:
-                        cfg = gen_desc.gen_star(rng, algo, rng.choice(["axi", "narrow-wide"]))
+                for v in ([0, 2] if k == "port_id_bits" else [1, 3, 9, 17] if big else [1, 9]):
+                    cfg = None
+                    for _ in range(6):
+                        if algo == "XY":
+                            cfg = gen_desc.gen_mesh(rng, algo, "axi", m=2, n=2, sides=["West"], partial_local=False)
+                        else:
+                            cfg = gen_desc.gen_star(rng, algo, rng.choice(["axi", "narrow-wide"]))
+                        if cfg:
+                            break
                     if cfg:
                         cfg = json.loads(json.dumps(cfg))
                         cfg["routing"][k] = v
@@ -212,9 +216,12 @@ def sweep_cases(pid, tier, rng):
                 if cfg:
                     out.append((f"explicit-bits:{m}x{n}:{'+'.join(sides)}", cfg))
         for fan in ([12, 5] if big else [11]):
-            cfg = gen_desc.gen_tree(rng, "ID", "axi", tree=[1, fan])
-            if cfg:
-                out.append((f"fanout-sweep:{fan}", cfg))
+            for per, flip in ((1, None), (2, False), (2, True)):
+                cfg = gen_desc.gen_tree(rng, "ID", "axi", tree=[1, fan], per=per, flip=flip)
+                if cfg:
+                    out.append((f"fanout-sweep:{fan}x{per}:{flip}", cfg))
+        for algo in ["XY", "ID"] if False else ["ID", "SRC"]:
+            out.append((f"prefix-protocols:{algo}", gen_desc.gen_prefix_protocols(rng, algo)))
         cfg = gen_desc.gen_deep_tree(rng, "ID", "axi", [1, 12, 11])
         if cfg:
             out.append(("deep-tree:[1,12,11]", cfg))
